@@ -1078,7 +1078,13 @@ func (dsc *dataStoreCommand) dictScanUnlocked(data *redisDict, cursor uint32, pa
 	count int,
 	isMatch func(item *redisDictItem) any) (output respValue) {
 	result := make([]any, 2)
-	matches := make([]any, 0, count)
+
+	// COUNT is a hint from the client, not an allocation size
+	capacity := count
+	if capacity > data.count {
+		capacity = data.count
+	}
+	matches := make([]any, 0, capacity)
 
 	highBit := uint32(len(data.buckets)) // always a power of 2
 	shift := 32 - bitPosition(highBit)
